@@ -837,7 +837,14 @@ fn emit_struct(out: &mut String, s: &StructDef) {
     }
 }
 
-fn emit_default_glue(out: &mut String, default: bool, _sized: bool) {
+fn emit_default_glue(out: &mut String, default: bool, sized: bool) {
+    if default && sized {
+        writeln!(
+            out,
+            "    fn native_default() -> Option<Value> {{ Some(<Self as Default>::default().read_plain()) }}"
+        )
+        .unwrap();
+    }
     if default {
         writeln!(out, "    const HAS_DEFAULT: bool = true;").unwrap();
         writeln!(
